@@ -69,6 +69,8 @@ REVERT_EXPECT: Dict[str, List[Tuple[str, str]]] = {
     "8c999d6": [("C06", "K9.identity-term")],
     "e7ccf88": [("C07", "K8.update-equals-rebuild")],
     "e8e6afc": [("C07", "K8.term-order")],
+    "8ae2c24": [("C07", "K6.length-validation")],
+    "473cb70": [("C10", "K9.collapse-values")],
     "2c3bbdc": [("C02", "K12.returned-exception"), ("C18", "K12.returned-exception")],
     "39e4aed": [("C13", "K8.open-shell-rdm-sum")],
     "7b11d59": [("C11", "K6.gate-validation")],
